@@ -170,19 +170,76 @@ func guardedByEdge(in ssa.Instruction, cond func(v ssa.Value) (match bool, onTru
 		if !ok {
 			continue
 		}
-		m, onTrue := cond(iff.Cond)
-		if !m {
-			continue
-		}
-		idx := 1
-		if onTrue {
-			idx = 0
-		}
-		if edgeDominates(b, idx, in.Block()) {
-			return iff
+		for _, alt := range condAlternatives(iff.Cond, 3) {
+			m, onTrue := cond(alt.v)
+			if !m {
+				continue
+			}
+			// alt.impliedBy says which outcome of the If implies a definite value of alt.v:
+			// and-form: If true  => alt.v true ; or-form: If false => alt.v false ; plain: both
+			idx := 1
+			if onTrue {
+				idx = 0
+			}
+			if alt.onlyWhen == 0 && !onTrue {
+				continue // and-form tells nothing on the false edge
+			}
+			if alt.onlyWhen == 1 && onTrue {
+				continue // or-form tells nothing on the true edge
+			}
+			if edgeDominates(b, idx, in.Block()) {
+				return iff
+			}
 		}
 	}
 	return nil
+}
+
+type condAlt struct {
+	v        ssa.Value
+	onlyWhen int // -1: both edges informative (the condition itself); 0: only the true edge; 1: only the false edge
+}
+
+// condAlternatives unfolds short-circuit conditions that go/ssa materialises as phis:
+// `A && B` is phi[false, B] (If true => B true), `A || B` is phi[true, B] (If false => B false).
+func condAlternatives(c ssa.Value, depth int) []condAlt {
+	out := []condAlt{{c, -1}}
+	phi, ok := c.(*ssa.Phi)
+	if !ok || depth <= 0 {
+		return out
+	}
+	allFalse, allTrue := true, true
+	var vals []ssa.Value
+	for _, e := range phi.Edges {
+		if k, isK := constBool(e); isK {
+			if k {
+				allFalse = false
+			} else {
+				allTrue = false
+			}
+			continue
+		}
+		vals = append(vals, e)
+	}
+	switch {
+	case allFalse && len(vals) > 0: // and-form
+		for _, v := range vals {
+			for _, a := range condAlternatives(v, depth-1) {
+				if a.onlyWhen == -1 || a.onlyWhen == 0 {
+					out = append(out, condAlt{a.v, 0})
+				}
+			}
+		}
+	case allTrue && len(vals) > 0: // or-form
+		for _, v := range vals {
+			for _, a := range condAlternatives(v, depth-1) {
+				if a.onlyWhen == -1 || a.onlyWhen == 1 {
+					out = append(out, condAlt{a.v, 1})
+				}
+			}
+		}
+	}
+	return out
 }
 
 // cmpOf decomposes v into a comparison, looking through a negation. ok=false if not a comparison.
